@@ -45,7 +45,7 @@ vars == <<T, obey, now, task, gate, creq, cpend, seen, fut, timer, caller, gotAt
           fnEndAt, fnEnd, cancelAt, tie, hold, ccp, obs>>
 scen == <<T, obey>>
 
-Init == /\ T \in 1..MaxDeadline /\ obey \in BOOLEAN
+Init == /\ T \in 0..MaxDeadline /\ obey \in BOOLEAN      \* (a timeout of 0: the deadline is the instant of the call)
         /\ now = 0 /\ task = "running" /\ gate = "closed" /\ creq = 0 /\ cpend = FALSE /\ seen = 0
         /\ fut = "pending" /\ timer = "armed" /\ caller = "waiting" /\ gotAt = 0
         /\ rdy = {} /\ errs = 0
